@@ -151,6 +151,9 @@ type env struct {
 	rt    wazero.Runtime
 	guest wazero.CompiledModule
 	named wazero.CompiledModule // same guest with a name section (module name "fromsection")
+	// partial exports only s1 and s3: instantiating it with a config whose start-function list names
+	// functions it lacks makes the runtime skip entries of that list
+	partial wazero.CompiledModule
 	dirs  []string // host dirs with marker files
 	mapfs []fstest.MapFS
 	bufs  []*bytes.Buffer
@@ -189,6 +192,15 @@ func getEnv() *env {
 		sub := append([]byte{0, byte(len(nm) + 1), byte(len(nm))}, nm...)
 		m.Customs = append(m.Customs, wenc.Custom{Name: "name", Data: sub})
 		e.named, err = e.rt.CompileModule(ctx, m.Encode())
+		if err != nil {
+			panic(err)
+		}
+		pm := &wenc.Module{}
+		pm.Mems = []wenc.Limits{{Min: 1, Max: 1, HasMax: true}}
+		for _, n := range []string{"s1", "s3"} {
+			pm.ExportFunc(n, pm.AddFunc(nil, nil, nil, (&wenc.Code{}).End().B))
+		}
+		e.partial, err = e.rt.CompileModule(ctx, pm.Encode())
 		if err != nil {
 			panic(err)
 		}
@@ -938,6 +950,22 @@ func buildTree(tc treeCase, conc bool) *treeResult {
 	}
 	t.res.Ops["InstantiateModule(named binary)"]++
 	t.recheckSnapshots("instantiate-binary-with-name-section")
+	// instantiate with a binary that exports only some of the configured start functions
+	for _, n := range t.nodes {
+		if n.kind != "M" {
+			continue
+		}
+		e.insts++
+		if mod, err := e.rt.InstantiateModule(e.ctx, e.partial, n.val.(wazero.ModuleConfig).WithName("")); err == nil {
+			mod.Close(e.ctx)
+		}
+		if mod, err := e.rt.InstantiateModule(e.ctx, e.partial, n.val.(wazero.ModuleConfig)); err == nil {
+			mod.Close(e.ctx)
+		}
+	}
+	t.res.Ops["InstantiateModule(binary lacking start functions)"]++
+	t.recheckSnapshots("instantiate-binary-lacking-start-functions")
+	t.observeAll("after-partial-binary")
 	// instantiate some M nodes with a sock config in the context
 	for k := 0; k < 3; k++ {
 		var ms, ss []int
